@@ -97,6 +97,8 @@ PVerdict ==
     ELSE IF e.out # "value" THEN "harness"
     ELSE IF e.re # "value" THEN "reprint-not-accepted"
     ELSE IF ~SameValue(e.rv, e.pv) THEN "reprint-parses-to-other-value"
+    ELSE IF ~e.ctor THEN "open"      \* e.g. a predicate with an empty id, which NewImmutable refuses: the
+                                     \* property does not say whether that is "well-formed"; left open
     ELSE "ok"
 
 \* Reader(lines, lout, ltrip, loaded, count, err): lout[i] is what the real triple.Parse does with
